@@ -6,7 +6,7 @@ import ast
 from sa.callgraph import CallGraph
 from sa.contentrule import analyse_renderer, field_table, GRAMMAR_EXCEPTIONS, OWNERS, EXCLUSIVE, REVIEWED_DROPS
 from sa.deadrender import dead_definitions, discarded_nonempty, renderer_functions
-from sa.model import AnalysisError, Program, norm, walk_no_nested
+from sa.model import AnalysisError, Program, alpha, norm, walk_no_nested
 from sa.report import Results
 from sa.tables.grammar import EXPRESSION_KINDS, OTHER_DISPATCHED_KINDS
 from sa.util import callee, dotted, exc_name
@@ -49,12 +49,17 @@ def content_findings(prog: Program, res: Results, rid: str, only_fields=None, de
         r.obligations += len(content) * max(1, len(rets))
         seen = set()
         for p in relevant:
-            key = (c, p["field"], "never rendered" if p["kind"] == "never" else f"dropped under `{p['test'][:70]}` ({p['lacking']} side)")
+            site = p["site"]
+            tnode = flow.tests.get(site, (None,))[0] if site else None
+            owner_f = prog.funcs.get(site[0]) if site else None
+            while owner_f is not None and owner_f.parent is not None:
+                owner_f = owner_f.parent
+            ttxt = alpha(tnode, owner_f.node)[:70] if (tnode is not None and owner_f is not None) else p["test"][:70]
+            key = (c, p["field"], "never rendered" if p["kind"] == "never" else f"dropped under `{ttxt}` ({p['lacking']} side)")
             if key in seen:
                 continue
             seen.add(key)
             f = prog.method(c, "rebuild")
-            site = p["site"]
             where = f"{prog.funcs[site[0]].file}:{site[1]}" if site and site[0] in prog.funcs else f.loc(p["return"])
             if p["kind"] == "never":
                 msg = (f"{c}.rebuild: the return at line {p['return'].lineno} never contains field `{p['field']}` "
@@ -204,7 +209,7 @@ def run(prog: Program) -> Results:
                 has_comment = any("'comment'" in norm(t) for t in tests)
                 r4.ob(has_comment, {"site": f.key, "loop_var": lv, "arms": [norm(t)[:40] for t in tests]})
                 if not has_comment:
-                    res.add("R-C01-4", (f.key, "child loop rejects comments", lv), f.loc(loop),
+                    res.add("R-C01-4", (f.key, "child loop rejects comments", alpha(loop.iter, f.node)), f.loc(loop),
                             f"{f.key}: the loop over `{norm(loop.iter)}` raises 'Unsupported child' for anything but "
                             f"{[norm(t)[:30] for t in tests]}: a comment in that position (valid Nix) makes parse raise ValueError")
 
@@ -218,11 +223,11 @@ def run(prog: Program) -> Results:
         dn = discarded_nonempty(f)
         r5.ob(not dd and not dn, None)
         for a, name in dd:
-            res.add("R-C01-5", (f.key, "dead render value", name, norm(a)[:60]), f.loc(a),
+            res.add("R-C01-5", (f.key, "dead render value", alpha(a, (f.parent or f).node)[:60]), f.loc(a),
                     f"{f.key}: `{norm(a)[:70]}` computes rendered text that no path uses afterwards: the piece it renders is missing "
                     f"from the output")
         for n, x in dn:
-            res.add("R-C01-5", (f.key, "non-empty value discarded", x), f.loc(n),
+            res.add("R-C01-5", (f.key, "non-empty value discarded", alpha(n, (f.parent or f).node)[:60]), f.loc(n),
                     f"{f.key}: `{norm(n)[:70]}` tests `{x}` for emptiness but its non-empty arm does not contain `{x}`")
 
     # ---------------------------------------------------------------- R-C01-6 let lifting / re-wrapping orientation (shared with R-C09-1)
